@@ -8,14 +8,13 @@ PROP = {
                 "field, and the manifest text (length+CRC-32, scratch root replaced by $R) are compared with the "
                 "extracted Config model; oracle = documented constraints table, save/load equality, nothing written "
                 "on rejection, every strict prefix fails, open fails on an unreadable manifest or on a missing one over "
-                "existing files and otherwise uses the stored WAL directory with earlier data readable; non-trivial = a successful save followed by a "
+                "existing files and otherwise uses the stored configuration (EngineFacade.VerifConfig, field by field) with earlier data readable; non-trivial = a successful save followed by a "
                 "load, or a rejected save, or a tampering step, or an engine open; distinct by case text",
         "assumptions": ["compaction_ratio is modelled as the exact decimal of the float64's shortest representation: "
                         "strconv.FormatFloat(f,-1)/ParseFloat agree with decimal arithmetic on such values (Go's "
                         "shortest-round-trip guarantee); tampered manifests keep the ratio at <= 15 significant digits",
                         "file system: os.WriteFile + os.Rename replace MANIFEST atomically; no I/O errors other than "
                         "'file does not exist'; encoding/json nesting limit (10000) not reached"],
-        "partial": "the engine's use of the loaded configuration is observed through the WAL directory it opens and "
-                   "the readability of earlier data (no public accessor for EngineFacade.cfg; hook VerifConfig requested); "
-                   "pkg/config/manifest.go (unused by the engine) is covered by the oracle only",
+        "partial": "pkg/config/manifest.go (second manifest API, unused by the engine) is covered by the oracle only; "
+                   "the general float guard (float_roundtrip_statement) is checked on a grid, not proved",
     }
